@@ -59,6 +59,12 @@ const (
 	vpPollExit      = 43
 	vpHupEnd        = 44
 	vpPollStart     = 45
+	vpPollWait      = 46
+	vpPollDrain     = 47
+	vpPollRearm     = 48
+	vpPollCloseMsg  = 49
+	vpPollTrigAdd   = 52
+	vpPollTrigMsg   = 53
 	vpFdClose       = 50
 	vpFdOpen        = 51
 	vpSrvAccept     = 60
